@@ -147,7 +147,7 @@ def run_nrt(p, v):
     try:
         # spawning a child does not influence anybody else's time; only a
         # tempo change exactly when another clock's routine wakes would
-        m = prog_model.Model(p, interacting={'tempo', 'etempo'}).run()
+        m = prog_model.Model(p, interacting={'tempo', 'etempo', 'beats_add'}).run()
     except prog_model.Ambiguous:
         raise Reject()
     if m.simultaneous:
@@ -183,7 +183,7 @@ def run_nrt(p, v):
 def run_rt(case, v):
     p = case['prog']
     try:
-        m = prog_model.Model(p, interacting={'tempo', 'etempo'}).run()
+        m = prog_model.Model(p, interacting={'tempo', 'etempo', 'beats_add'}).run()
     except prog_model.Ambiguous:
         raise Reject()
     if m.simultaneous:
@@ -224,11 +224,12 @@ def run_rt(case, v):
     return {'nontrivial': nt, 'labels': labels}
 
 
-def rt_cases(nondyadic=False, tempo_ops=False, busy=False):
+def rt_cases(nondyadic=False, tempo_ops=False, busy=False, beats_ops=False):
     tape = st.lists(st.integers(0, 11), min_size=0, max_size=60)
     return st.fixed_dictionaries({
         'prog': proggen.timing_program(apps=False, nondyadic=nondyadic,
-                                       tempo_ops=tempo_ops, busy=busy),
+                                       tempo_ops=tempo_ops, busy=busy,
+                                       beats_ops=beats_ops),
         'tape_a': tape, 'tape_b': tape})
 
 
